@@ -54,6 +54,11 @@ CLAIMS = {
   text="Exploration, exhaustive on the finite domain the property names: every one of the 3,652,059 days, 119,988 month-year and 9,999 year-only dates is built (struct and text route) and its bounds, length, Years containment and day-to-day monotonicity are compared with an integer Gregorian calendar cross-checked against time.Date; random day pairs and DateNodes lists cover IsBefore/IsAfter/Minimum/Maximum. Exhaustive sub-checks are marked in evidence.",
   note="Trusted: Go time.Date, internal/ref/calendar.go (40 lines), rapid. Years outside 1..9999 are outside the property.",
   design="6.5"),
+ "C13": dict(
+  technique="stateful / model-based PBT (rapid-generated operation histories, model = fresh decode of the current text) + exhaustive short histories over a small operation alphabet",
+  text="Exploration of histories: operation lists (21 edit operations, 5 cache-warming reads, 10 read-only operations) are generated as data over random family graphs, and every sequence up to length 4 (thorough 5) over a 10-operation alphabet is enumerated on a fixed document. Immediately before each edit the selected views are read (so that caches are warm when the edit happens); after every edit and read-only step all views of the live document are read first and then compared with the same views on a fresh decode of Document.String(); read-only operations must leave the text byte-identical. Shrunk failing histories replay without rapid.",
+  note="Trusted: views through public accessors only, compared as canonical strings; a view that panics must panic identically on the fresh decode. The live views are read before the fresh decode because decoding resets process-wide cache state. Document.SetNodes is not in the statement's edit list and not generated.",
+  design="6.13"),
  "C20": dict(
   technique="model-based PBT (rapid): warnings oracle evaluated on generated facts (day numbers) vs Document.Warnings(), metamorphic record/child reordering, CLI line count",
   text="Exploration: family graphs with exact dates are generated so that each warning condition is met or not met, with the boundaries that whole days decide generated exactly (sibling gaps 0/1/2/3 days, child born the day before/of/after a parent's birth, later-group events the day before/of an earlier-group event) and margins only around the approximate thresholds (16 and 100 years, 9 months). The expected multiset of (kind, people, dates) is computed from the blueprint alone and must equal the typed projection of Document.Warnings() (name, context, people named in the message), also after reversing records and children; the built 'gedcom warnings' binary must print exactly one line per warning.",
